@@ -353,6 +353,11 @@ def reshape(x, shape, merge_chunks=True, limit=None):
 
         return empty(shape, chunks=tuple((d,) for d in shape), dtype=x.dtype)
 
+    if x.size and any(0 in c for c in x.chunks):
+        # Zero-length chunks (left behind by e.g. boolean indexing) carry no
+        # data but break the block bookkeeping below: drop them first.
+        x = x.rechunk(tuple(tuple(n for n in c if n) for c in x.chunks))
+
     if x.npartitions == 1:
         key = next(flatten(x.__dask_keys__()))
         new_key = (name,) + (0,) * len(shape)
